@@ -809,16 +809,50 @@ def _pure_chain(e) -> bool:
     return isinstance(e, ast.Name)
 
 
-def canon_atom(txt: str) -> str:
-    """Canonical text of an atom: re-unparsed, operands of == sorted."""
+def canon_compare(e: ast.Compare):
+    """-> (canonical positive atom text, negated?) of a single-operator comparison.
+
+    `!=`, `is not`, `not in` are the negations of `==`, `is`, `in`; the operands of == are sorted; order comparisons are
+    brought to `<` / `<=` with textually sorted operands (`a > b` is not(a <= b), `b >= a` is a <= b)."""
+    op = e.ops[0]
+    l, r = ast.unparse(e.left), ast.unparse(e.comparators[0])
+    if isinstance(op, (ast.Eq, ast.NotEq)):
+        l, r = sorted([l, r])
+        return f'{l} == {r}', isinstance(op, ast.NotEq)
+    if isinstance(op, (ast.Is, ast.IsNot)):
+        return f'{l} is {r}', isinstance(op, ast.IsNot)
+    if isinstance(op, (ast.In, ast.NotIn)):
+        return f'{l} in {r}', isinstance(op, ast.NotIn)
+    sym = {ast.Lt: '<', ast.LtE: '<=', ast.Gt: '>', ast.GtE: '>='}.get(type(op))
+    if sym is None:
+        return ast.unparse(e), False
+    if l > r:
+        l, r = r, l
+        sym = {'<': '>', '<=': '>=', '>': '<', '>=': '<='}[sym]
+    if sym == '>':
+        return f'{l} <= {r}', True
+    if sym == '>=':
+        return f'{l} < {r}', True
+    return f'{l} {sym} {r}', False
+
+
+def canon_lit(txt: str, pol: bool):
+    """Canonical (atom text, polarity) of a literal given as source text."""
     try:
         e = ast.parse(txt, mode='eval').body
     except SyntaxError:
-        return txt
-    if isinstance(e, ast.Compare) and len(e.ops) == 1 and isinstance(e.ops[0], ast.Eq):
-        l, r = sorted([ast.unparse(e.left), ast.unparse(e.comparators[0])])
-        return f'{l} == {r}'
-    return ast.unparse(e)
+        return txt, pol
+    while isinstance(e, ast.UnaryOp) and isinstance(e.op, ast.Not):
+        e, pol = e.operand, not pol
+    if isinstance(e, ast.Compare) and len(e.ops) == 1:
+        t, neg = canon_compare(e)
+        return t, (not pol) if neg else pol
+    return ast.unparse(e), pol
+
+
+def canon_atom(txt: str) -> str:
+    """Canonical text of an atom (polarity dropped - use canon_lit when it matters)."""
+    return canon_lit(txt, True)[0]
 
 
 class Facts(list):
@@ -831,12 +865,12 @@ class Facts(list):
         self.resolved = list(resolved) if resolved is not None else []
 
     def _canon(self):
-        return {(canon_atom(t), p) for t, p in list(list.__iter__(self)) + self.resolved}
+        return {canon_lit(t, p) for t, p in list(list.__iter__(self)) + self.resolved}
 
     def __contains__(self, item):
         if not (isinstance(item, tuple) and len(item) == 2 and isinstance(item[0], str)):
             return list.__contains__(self, item)
-        return list.__contains__(self, item) or (canon_atom(item[0]), item[1]) in self._canon()
+        return list.__contains__(self, item) or canon_lit(item[0], item[1]) in self._canon()
 
     def add(self, atom, resolved_atom=None):
         if not list.__contains__(self, atom):
